@@ -155,7 +155,8 @@ def header_ok(text, spec, labels, arrow):
 class Headers(Problem):
     max_depth = 300
 
-    def __init__(self, ocfg, menu, max_sections, src="git"):
+    def __init__(self, ocfg, menu, max_sections, src="git", same_names=False):
+        self.same_names = same_names
         self.ocfg = ocfg
         self.menu = menu  # list of (event, shape, prefixes, frag)
         self.max_sections = max_sections
@@ -166,7 +167,7 @@ class Headers(Problem):
         key = (mi, n)
         if key not in self.cache:
             ev, shape, prefixes, frag = self.menu[mi]
-            self.cache[key] = make_section(ev, shape, n, prefixes, self.src, frag)
+            self.cache[key] = make_section(ev, shape, 0 if self.same_names else n, prefixes, self.src, frag)
         return self.cache[key]
 
     # producer state: (n sections started, menu index or None, line index)
@@ -335,7 +336,7 @@ def run_task(task):
         cid = drv.mkconfig(args)
     except explore.Rejected as e:
         return {"label": label, "spec": ("headers",), "rejected": str(e)}
-    prob = Headers(ocfg, menu, nsec, src)
+    prob = Headers(ocfg, menu, nsec, src.replace("+same", ""), same_names=src.endswith("+same"))
     stats, viols = explore.bfs(prob, drv, cid, deadline=deadline)
     drv.drop(cid)
     for v in viols:
@@ -379,12 +380,15 @@ def main(tier):
         if k == 0:
             tasks.append((label, ov, full, 2, "git"))
             tasks.append((label + "/mnemonic", ov, mnemonic, 2, "git"))
+            tasks.append((label + "/same-file", ov, core, 2, "git+same"))
             tasks.append((label + "/diffu", ov, [("modified", s, ("a/", "b/"), "") for s in
                                                  ("plain", "space", "nonascii")], 2, "diffu"))
             if tier == "thorough":
                 tasks.append((label + "/3", ov, core, 3, "git"))
         else:
             tasks.append((label, ov, core if tier == "quick" or k == 2 else full, 2, "git"))
+            if k == 1:
+                tasks.append((label + "/same-file", ov, core, 2, "git+same"))
     cap = 45 if tier == "quick" else 900
     return runner.run_e1(PROP, tier, tasks, run_task, ASSUMPTIONS, cap,
                          {"config_deviation_bound": d, "configurations": len(configs)})
